@@ -26,6 +26,13 @@ CHECKS = {
         fuzz("codecx", "FuzzC19Prefix", 30),
         fuzz("codecx", "FuzzC19Prng", 20),
     ]},
+    "C20": {"units": [
+        rapid("seqiox", "TestC20Seek", 10000, 60000, 4),
+        rapid("seqiox", "TestC20Sizer", 10000, 60000, 4),
+        rapid("seqiox", "TestC20Closer", 10000, 60000, 4),
+        rapid("seqiox", "TestC20Unique", 10000, 60000, 4),
+        rapid("seqiox", "TestC20Proxy", 5000, 30000, 8),
+    ]},
 }
 
 ASSUMPTIONS = {
